@@ -770,6 +770,14 @@ def gen_paths(seed, tier):
     for i in range(n):
         via, style = rng.choice(CREATORS)
         b = GridBuilder(rng, ntables=0)
+        mine = None
+        if rng.random() < 0.15:
+            # an application-registered decoration, used through auto by its (case-sensitive, possibly dotted) name
+            mine = rng.choice(["Corp-Box", "mine", "a.b", "Mixed.Case"])
+            fields = rng.sample(DECOR_FIELDS, rng.randint(2, 6))
+            b.ops.append({"op": "regdecor", "name": mine, "custom": dict(zip(fields, rng.sample(GLYPHS, len(fields))))})
+            if rng.random() < 0.5:
+                via, style = "auto", rng.choice([mine, "texttable." + mine])
         b.new_table(via, style)
         nwr = 0 if via == "core" else 1
         ncols = build_table(rng, b, rng.randint(1, 4), rng.randint(0, 5), lambda: rnd_text_item(rng, sized=0.1))
@@ -796,6 +804,8 @@ def gen_paths(seed, tier):
                     b.ops.append(rnd_decor_op(rng, nwr + 1))
             nwr += 1
         render_ops(rng, b, nwr, rng.randint(1, 4))
+        if mine:
+            b.ops.append({"op": "render", "auto": rng.choice([mine, "texttable." + mine, "TextTable." + mine]), "t": 1, "entry": "Render"})
         out.append(b.ops)
     return out
 
@@ -819,6 +829,15 @@ def gen_repeat(seed, tier):
         b.ops += mutate_ops(rng, b.ops, TEXTS, p=0.4)
         nwr = 0
         text_wr = []
+        if rng.random() < 0.35:
+            # one text wrapper switched between decorations by name and back: X, Y, X must give X's first bytes again
+            b.ops.append({"op": "wrap", "kind": "text", "over": {"t": 1}})
+            nwr += 1
+            text_wr.append(nwr)
+            x, y = rng.sample(DECOR_NAMES, 2)
+            for nm in [x, y, x, rng.choice(DECOR_NAMES), y]:
+                b.ops.append({"op": "decor", "w": nwr, "name": nm})
+                b.ops.append({"op": "render", "w": nwr, "entry": rng.choice(["Render", "RenderTo"])})
         for _ in range(rng.randint(3, 12)):
             r = rng.random()
             if r < 0.35 or nwr == 0:
